@@ -24,12 +24,14 @@ class Stats(object):
         self.max_seconds = 0.0
         self.linear_queries = 0
         self.linear_unsat = 0
+        self.residual_zero = 0
 
     def as_dict(self):
         return dict(queries=self.queries, sat=self.sat, unsat=self.unsat,
                     unknown=self.unknown, solver_seconds=round(self.seconds, 3),
                     linear_stage_queries=self.linear_queries,
                     linear_stage_unsat=self.linear_unsat,
+                    residual_identically_zero=self.residual_zero,
                     max_query_seconds=round(self.max_seconds, 3))
 
 
@@ -44,6 +46,7 @@ class Solver(object):
         self._atoms = {}      # atom term id -> Term
         self._lemma_cache = {}  # atom term id -> (list of z3 lemmas, [new atom terms])
         self.extra_lemmas = []  # callables atom_term -> list of bool Terms
+        self.last_stage = 0
 
     # ------------------------------------------------------------ encoding
     def z(self, t):
@@ -194,6 +197,22 @@ class Solver(object):
                     first.lin(u.args[1])
         self._canon = Canon(nz, first.structural_sums(), positive=pos)
         self._zl = {}
+        goal = conds[-1]
+        if goal.op == 'not' and goal.args[0].op == '==':
+            # residual of the equality with the denominators that are sums
+            # cleared: identically zero => the negated goal is unsatisfiable
+            cn = self._canon
+            a, b = goal.args[0].args
+            d = cn.lin(a).plus(cn.lin(b), -1)
+            if d.coef or d.const != 0:
+                d = cn.clear_denominators(d)
+            if not d.coef and d.const == 0:
+                self.stats.queries += 1
+                self.stats.linear_queries += 1
+                self.stats.unsat += 1
+                self.stats.linear_unsat += 1
+                self.stats.residual_zero += 1
+                return 'unsat'
         s = z3.Solver()
         s.set('timeout', 5000)
         for c in conds:
@@ -423,7 +442,9 @@ class Solver(object):
         if goal is T.TRUE:
             return 'proved', None
         # stage 1: linear arithmetic over opaque non-linear sub-terms
+        self.last_stage = 2
         if self._solve_linear(list(assumptions) + [T.lnot(goal)]) == 'unsat':
+            self.last_stage = 1
             return 'proved', None
         r, env = self._solve(list(assumptions) + [T.lnot(goal)],
                              want_model=True, timeout_ms=timeout_ms)
